@@ -97,7 +97,53 @@ def _nullable(a):
     return _nullable(a[1])
 
 
+def cross_grammar(rng):
+    """states with equal label sets whose targets are crossed: 'p' ('a' 'x' | 'b' 'y') | 'q' ('b' 'x' | 'a' 'y') - state merging
+    must tell them apart however the arcs were inserted"""
+    k = rng.choice([2, 2, 3])
+    keys = rng.sample(["'a'", "'b'", "'c'", "'d'", "'e'", 'NAME', 'NUMBER'], k)
+    tails = rng.sample(["'x'", "'y'", "'z'", "'w'", 'STRING'], k)
+    alts = []
+    for head in rng.sample(["'p'", "'q'", "'s'", "'t'"], rng.choice([2, 2, 3])):
+        perm = tails[:]
+        rng.shuffle(perm)
+        order = list(range(k))
+        rng.shuffle(order)
+        inner = ' | '.join('%s %s' % (keys[j], perm[j]) for j in order)
+        alts.append('%s (%s)' % (head, inner) + rng.choice(['', '', " 'end'", '*' if False else '']))
+    return 'r0: ' + ' | '.join(alts) + '\n'
+
+
+_NAME_STYLES = [lambda i: 'Rule%d' % i, lambda i: ['Sum', 'Term', 'Factor', 'Atom', 'Expr', 'Stmt', 'Block'][i],
+                lambda i: ['NUMBER', 'NAME', 'STRING', 'OP', 'FSTRING_START', 'ENDMARKER', 'ERRORTOKEN'][i], lambda i: '_r%d' % i,
+                lambda i: 'rule_%d_x' % i]
+
+
 def rand_grammar(rng):
+    from ..oracles import ebnf
+    global TERMS
+    if rng.random() < .06:
+        return cross_grammar(rng)
+    text = _rand_grammar(rng, rng.sample(TERMS[6:], rng.randint(2, 4)) if rng.random() < .3 else TERMS)
+    if rng.random() < .12:
+        # rule names need not be lower case; a rule may be called like a token type (the rule wins)
+        import re
+        style = rng.choice(_NAME_STYLES)
+        text = re.sub(r'\br(\d)\b', lambda m: style(int(m.group(1))), text)
+    return text
+
+
+def _rand_grammar(rng, terms):
+    from ..oracles import ebnf
+    global TERMS
+    saved, TERMS = TERMS, terms
+    try:
+        return _rand_grammar_inner(rng)
+    finally:
+        TERMS = saved
+
+
+def _rand_grammar_inner(rng):
     from ..oracles import ebnf
     n = rng.randint(1, 6)
     names = ['r%d' % i for i in range(n)]
